@@ -1,6 +1,7 @@
 package engine
 
 import (
+	"go/token"
 	"fmt"
 	"go/types"
 	"reflect"
@@ -372,6 +373,14 @@ func (p *Prog) InlineUnknown(known map[string]bool) []string {
 	if len(log) == 0 {
 		return nil
 	}
+	// arguments that were constants at the call site decide branches of the
+	// inlined body: fold them
+	for _, fn := range p.AllFuncs {
+		if inlinedInto[fn] {
+			for i := 0; i < 4 && foldConstBranches(fn); i++ {
+			}
+		}
+	}
 	// drop helpers that are no longer referenced by anything
 	stillUsed := map[*ssa.Function]bool{}
 	for _, fn := range p.AllFuncs {
@@ -463,4 +472,151 @@ func callsTrans(from, to *ssa.Function, seen map[*ssa.Function]bool) bool {
 		}
 	}
 	return false
+}
+
+// constCond evaluates a branch condition that only involves constants (the
+// residue of inlining a helper that switches on a constant argument).
+func constCond(v ssa.Value, d int) (bool, bool) {
+	if d > 4 {
+		return false, false
+	}
+	if b, ok := ConstBool(v); ok {
+		return b, true
+	}
+	switch x := v.(type) {
+	case *ssa.UnOp:
+		if x.Op == token.NOT {
+			r, ok := constCond(x.X, d+1)
+			return !r, ok
+		}
+	case *ssa.BinOp:
+		if x.Op != token.EQL && x.Op != token.NEQ {
+			return false, false
+		}
+		if a, ok := ConstStr(x.X); ok {
+			if b, ok := ConstStr(x.Y); ok {
+				return (a == b) == (x.Op == token.EQL), true
+			}
+			return false, false
+		}
+		if a, ok := ConstInt(x.X); ok {
+			if b, ok := ConstInt(x.Y); ok {
+				return (a == b) == (x.Op == token.EQL), true
+			}
+		}
+	}
+	return false, false
+}
+
+// removePred removes the i-th predecessor of b together with the matching
+// phi operands.
+func removePred(b *ssa.BasicBlock, i int) {
+	b.Preds = append(b.Preds[:i:i], b.Preds[i+1:]...)
+	for _, in := range b.Instrs {
+		phi, ok := in.(*ssa.Phi)
+		if !ok {
+			break
+		}
+		if i < len(phi.Edges) {
+			phi.Edges = append(phi.Edges[:i:i], phi.Edges[i+1:]...)
+		}
+	}
+}
+
+// foldConstBranches turns branches on constant conditions into jumps and
+// removes the blocks that become unreachable, so that the code an inlined
+// helper would never have executed for these arguments is not analysed.
+// Only applied to functions something was inlined into.
+func foldConstBranches(fn *ssa.Function) bool {
+	changed := false
+	for _, b := range fn.Blocks {
+		if len(b.Instrs) == 0 || len(b.Succs) != 2 || b.Succs[0] == b.Succs[1] {
+			continue
+		}
+		ifi, ok := b.Instrs[len(b.Instrs)-1].(*ssa.If)
+		if !ok {
+			continue
+		}
+		val, known := constCond(ifi.Cond, 0)
+		if !known {
+			continue
+		}
+		keep, drop := b.Succs[0], b.Succs[1]
+		if !val {
+			keep, drop = drop, keep
+		}
+		for i, p := range drop.Preds {
+			if p == b {
+				removePred(drop, i)
+				break
+			}
+		}
+		j := &ssa.Jump{}
+		setBlock(j, b)
+		b.Instrs[len(b.Instrs)-1] = j
+		b.Succs = []*ssa.BasicBlock{keep}
+		changed = true
+	}
+	if !changed {
+		return false
+	}
+	// unreachable blocks
+	for {
+		reach := map[*ssa.BasicBlock]bool{}
+		var visit func(b *ssa.BasicBlock)
+		visit = func(b *ssa.BasicBlock) {
+			if reach[b] {
+				return
+			}
+			reach[b] = true
+			for _, s := range b.Succs {
+				visit(s)
+			}
+		}
+		visit(fn.Blocks[0])
+		if fn.Recover != nil {
+			visit(fn.Recover)
+		}
+		removed := false
+		var kept []*ssa.BasicBlock
+		for _, b := range fn.Blocks {
+			if reach[b] {
+				kept = append(kept, b)
+				continue
+			}
+			removed = true
+			for _, s := range b.Succs {
+				for i, p := range s.Preds {
+					if p == b {
+						removePred(s, i)
+						break
+					}
+				}
+			}
+		}
+		fn.Blocks = kept
+		if !removed {
+			break
+		}
+	}
+	// single-operand phis stand for their operand
+	for _, b := range fn.Blocks {
+		for {
+			if len(b.Instrs) == 0 {
+				break
+			}
+			phi, ok := b.Instrs[0].(*ssa.Phi)
+			if !ok || len(phi.Edges) != 1 {
+				break
+			}
+			replaceOperands(fn, phi, phi.Edges[0])
+			b.Instrs = b.Instrs[1:]
+		}
+	}
+	for i, b := range fn.Blocks {
+		b.Index = i
+	}
+	invalidateDom(fn)
+	rebuildReferrers(fn)
+	return true
 }
